@@ -40,7 +40,7 @@ type entry struct {
 	// ?dns=a&dns=b ("repeat") | ?dns=udp://a,udp://b ("udp"); the name servers of /etc/resolv.conf come after them
 	Resolvers int    `json:"resolvers,omitempty"`
 	DNSList   string `json:"dns_list,omitempty"`
-	Host      string `json:"host,omitempty"` // "" | localhost | ip: spelling of the host in the upstream URL; a real endpoint's certificate is valid for that spelling only
+	Host      string `json:"host,omitempty"` // "" | localhost | ip | ip6: spelling of the host in the upstream URL (name, 127.0.0.1, [::1] with the endpoint listening on ::1); a real endpoint's certificate is valid for that spelling only
 }
 
 // anyCase is the replayable descriptor of every kind of C16 case (Part selects which fields matter).
@@ -52,6 +52,7 @@ type anyCase struct {
 	Secure  bool    `json:"secure"`
 	Kind    string  `json:"kind,omitempty"`   // reuse, loss
 	Scheme  string  `json:"scheme,omitempty"` // reuse, loss: spelling of the scheme in the upstream URL ("" = the kind's default)
+	Host    string  `json:"host,omitempty"`   // reuse, loss: spelling of the host in the upstream URL (see entry.Host)
 	M       int     `json:"m,omitempty"`      // reuse
 	How     string  `json:"how,omitempty"`    // loss: cut-fin | cut-rst | server-restart | server-restart-attempt-while-down | server-gone | black-hole
 	When    string  `json:"when,omitempty"`   // loss: idle | mid-transfer | during-open
@@ -165,12 +166,12 @@ func build(entries []entry, forward string, secure bool) (*scenario, error) {
 			}
 		} else {
 			if en.Kind == "dns" {
-				sc, err = e2e.NewC16ScriptedDNS(en.Manner, en.Resolvers)
+				sc, err = e2e.NewC16ScriptedDNSHost(en.Manner, en.Resolvers, en.Host)
 				if err == nil {
 					sc.DNSList = en.DNSList
 				}
 			} else {
-				sc, err = e2e.NewC16Scripted(en.Kind, en.Manner)
+				sc, err = e2e.NewC16ScriptedHost(en.Kind, en.Manner, en.Host)
 			}
 			if err == nil {
 				sc.Host, sc.Scheme = en.Host, en.Scheme
@@ -510,6 +511,7 @@ func runList(rec *vcommon.Rec, c *anyCase) (stalled bool) {
 	for i, e := range c.Entries {
 		rec.Seen("entry(kind,manner)", e.Kind+"/"+e.Manner)
 		rec.Seen("entry(kind,scheme,manner,secure-required)", fmt.Sprintf("%s|%s|%s|%v", e.Kind, e.Scheme, e.Manner, c.Secure))
+		rec.Seen("entry(kind,host,manner)", e.Kind+"|"+e.Host+"|"+e.Manner)
 		if e.Kind == "dns" {
 			rec.Seen("dns-entry(manner,dead-resolver-candidates,list-syntax,position,list-length)", fmt.Sprintf("%s|%d|%s|%d|%d", e.Manner, e.Resolvers, e.DNSList, i, len(c.Entries)))
 		}
@@ -768,14 +770,16 @@ func listCases(rec *vcommon.Rec) []*anyCase {
 	}
 	all := []string{"none", "reachable", "refused"}
 	out = append(out, spellingCases(rec)...)
+	out = append(out, hostCases(rec)...)
 	defer func() {
 		// every second list of two or more entries spells its hosts alternately by name and by address, and every real
 		// endpoint's certificate is valid for its own spelling only
 		for k, c := range out {
 			if len(c.Entries) >= 2 && k%2 == 1 {
 				es := append([]entry{}, c.Entries...)
+				hosts := hostSpellings()
 				for i := range es {
-					es[i].Host = []string{"localhost", "ip"}[(i+k/2)%2]
+					es[i] = spellHost(es[i], hosts[(i+k/2)%len(hosts)])
 				}
 				c.Entries = es
 			}
@@ -801,6 +805,47 @@ func listCases(rec *vcommon.Rec) []*anyCase {
 	}
 	for i := 0; i < rec.Pick(40, 600); i++ { // seeded sample of 4-entry lists
 		gen(4, rng.Intn(16), []string{all[rng.Intn(3)]})
+	}
+	return out
+}
+
+// hostSpellings: the ways the host of an upstream address is written in the workload: by name, as an IPv4 literal,
+// as an IPv6 literal (only where the machine has a ::1 loopback).
+func hostSpellings() []string {
+	if e2e.C16HasIPv6Loopback() {
+		return []string{"localhost", "ip", "ip6"}
+	}
+	return []string{"localhost", "ip"}
+}
+
+// spellHost gives an entry a host spelling; an address family that the scheme excludes is not a spelling of the same
+// endpoint (udp4://[::1] can never work), so the scheme follows the family there.
+func spellHost(e entry, host string) entry {
+	e.Host = host
+	if host == "ip6" && e.Scheme == "udp4" {
+		e.Scheme = "udp6"
+	}
+	return e
+}
+
+// hostCases: every kind x every spelling of the host (each real endpoint holds a certificate that is valid for its own
+// spelling only, and listens on the loopback of its spelling) x --secure off / on, alone in the list and ahead of a
+// healthy upstream that is spelled differently. The reference model does not know spellings.
+func hostCases(rec *vcommon.Rec) []*anyCase {
+	var out []*anyCase
+	hosts := hostSpellings()
+	k := 0
+	for _, kind := range listKinds {
+		for hi, host := range hosts {
+			for _, secure := range []bool{false, true} {
+				x := spellHost(entry{Kind: kind, Manner: "good"}, host)
+				f := spellHost(entry{Kind: listKinds[(k+1)%len(listKinds)], Manner: "good"}, hosts[(hi+1+k%2)%len(hosts)])
+				for _, es := range [][]entry{{x}, {x, f}} {
+					out = append(out, &anyCase{Part: "list", Entries: es, Forward: "none", Secure: secure, Seed: rec.Seed()*100000 + 45000 + int64(len(out))})
+				}
+				k++
+			}
+		}
 	}
 	return out
 }
@@ -879,6 +924,13 @@ func silentCases(rec *vcommon.Rec) []*anyCase {
 	add(false, "none", entry{Kind: "tcp", Manner: "hs-close"}, entry{Kind: "dns", Manner: "hs-garbage", Resolvers: 3, DNSList: "udp"}, entry{Kind: "wss", Manner: "good"})
 	add(false, "none", entry{Kind: "tcp", Manner: "good"}, entry{Kind: "dns", Manner: "refused", Resolvers: 2}) // after a healthy upstream: never contacted
 	add(false, "none", entry{Kind: "dns", Manner: "hs-400", Resolvers: 2})                                      // nobody good: must be given up, not held for ever
+	if e2e.C16HasIPv6Loopback() {
+		// the same on the IPv6 loopback, written [::1]:port
+		add(true, "none", entry{Kind: "tcp", Manner: "silent", Host: "ip6"}, entry{Kind: "tcp", Manner: "good", Host: "ip6"})
+		add(false, "none", entry{Kind: "ws", Scheme: "ws", Manner: "silent-in-starttls", Host: "ip6"}, entry{Kind: "udp", Manner: "good", Host: "ip6"})
+		add(false, "none", entry{Kind: "dns", Manner: "refused", Resolvers: 2, Host: "ip6"}, entry{Kind: "ws", Manner: "good", Host: "ip6"})
+		add(true, "none", entry{Kind: "dns", Manner: "hs-400", Resolvers: 2, DNSList: "repeat", Host: "ip6"}, entry{Kind: "tcp+tls", Manner: "good", Host: "ip"})
+	}
 	if rec.Thorough() {
 		rng := vcommon.NewRand(rec.Seed(), "c16/silent")
 		sil := []entry{{Kind: "tcp", Manner: "silent"}, {Kind: "tcp+tls", Manner: "silent"}, {Kind: "tcp+tls", Manner: "silent-inner"}, {Kind: "ws", Manner: "silent"}, {Kind: "ws", Manner: "silent-inner"}, {Kind: "udp", Manner: "silent"}, {Kind: "udp", Manner: "refused"},
@@ -908,7 +960,7 @@ func silentCases(rec *vcommon.Rec) []*anyCase {
 
 func runReuse(rec *vcommon.Rec, c *anyCase) (stalled bool) {
 	rec.Mark(c)
-	s, err := build([]entry{{Kind: c.Kind, Scheme: c.Scheme, Manner: "good"}}, "none", c.Secure)
+	s, err := build([]entry{{Kind: c.Kind, Scheme: c.Scheme, Host: c.Host, Manner: "good"}}, "none", c.Secure)
 	if err != nil {
 		rec.Inconclusive("fixture: "+err.Error(), c)
 		return false
@@ -978,7 +1030,7 @@ func runReuse(rec *vcommon.Rec, c *anyCase) (stalled bool) {
 	obs := map[string]interface{}{"physical_connections_after_concurrent_wave": physWave1, "physical_connections_at_end": physEnd,
 		"logical_connections": c.M + 2, "not_served_correctly": bad, "outcomes": outcomes, "sessions_accepted_by_the_server": sessions,
 		"visits_of_the_locked_open_path": verifhook.Count("upstream.locked") - lockedBefore}
-	rec.Seen("reuse(kind,scheme,m,secure)", fmt.Sprintf("%s|%s|%d|%v", c.Kind, c.Scheme, c.M, c.Secure))
+	rec.Seen("reuse(kind,scheme,host,m,secure)", fmt.Sprintf("%s|%s|%s|%d|%v", c.Kind, c.Scheme, c.Host, c.M, c.Secure))
 	if inconcl > 0 {
 		rec.Case(c.key(), false)
 		rec.Inconclusive("busy / fixture problem during the concurrent opens", c)
@@ -1013,7 +1065,7 @@ func runReuse(rec *vcommon.Rec, c *anyCase) (stalled bool) {
 // its order again, so the next local connection is served by the FIRST upstream.
 func runComeback(rec *vcommon.Rec, c *anyCase) (stalled bool) {
 	rec.Mark(c)
-	s, err := build([]entry{{Kind: c.Kind, Scheme: c.Scheme, Manner: "good"}, {Kind: c.Kind, Scheme: c.Scheme, Manner: "good"}}, "none", c.Secure)
+	s, err := build([]entry{{Kind: c.Kind, Scheme: c.Scheme, Host: c.Host, Manner: "good"}, {Kind: c.Kind, Scheme: c.Scheme, Host: c.Host, Manner: "good"}}, "none", c.Secure)
 	if err != nil {
 		rec.Inconclusive("fixture: "+err.Error(), c)
 		return false
@@ -1021,7 +1073,7 @@ func runComeback(rec *vcommon.Rec, c *anyCase) (stalled bool) {
 	defer func() { c.hold(); s.close() }()
 	key := uint64(c.Seed) * 64
 	rec.Seen("loss(kind,how,when,secure)", fmt.Sprintf("%s|%s|%s|%v", c.Kind, c.How, c.When, c.Secure))
-	rec.Seen("loss(kind,scheme)", c.Kind+"|"+c.Scheme)
+	rec.Seen("loss(kind,scheme,host)", c.Kind+"|"+c.Scheme+"|"+c.Host)
 	s.eps[0].StopServer()
 	s.eps[0].CutAll(true)
 	first := s.connect(key+1, 2000, stdWait, false)
@@ -1077,7 +1129,7 @@ func runLoss(rec *vcommon.Rec, c *anyCase) (stalled bool) {
 		return runComeback(rec, c)
 	}
 	rec.Mark(c)
-	entries := []entry{{Kind: c.Kind, Scheme: c.Scheme, Manner: "good"}}
+	entries := []entry{{Kind: c.Kind, Scheme: c.Scheme, Host: c.Host, Manner: "good"}}
 	if c.How == "server-gone" {
 		entries = append(entries, entry{Kind: "tcp", Manner: "good"})
 	}
@@ -1097,7 +1149,7 @@ func runLoss(rec *vcommon.Rec, c *anyCase) (stalled bool) {
 		how += "-while-idle"
 	}
 	rec.Seen("loss(kind,how,when,secure)", fmt.Sprintf("%s|%s|%s|%v", c.Kind, c.How, c.When, c.Secure))
-	rec.Seen("loss(kind,scheme)", c.Kind+"|"+c.Scheme)
+	rec.Seen("loss(kind,scheme,host)", c.Kind+"|"+c.Scheme+"|"+c.Host)
 
 	// a session is up and has carried data
 	first := s.connect(key+1, 3000, stdWait, c.When == "mid-transfer")
@@ -1461,14 +1513,17 @@ func b2i(b bool) int64 {
 func reuseCases(rec *vcommon.Rec) []*anyCase {
 	var out []*anyCase
 	spell := speller{}
+	hosts := append([]string{""}, hostSpellings()...)
 	for i, k := range listKinds {
 		for j, m := range []int{2, 8, 32} {
-			out = append(out, &anyCase{Part: "reuse", Kind: k, Scheme: spell.next(entry{Kind: k}).Scheme, M: m, Secure: (i+j)%2 == 1 && rec.Thorough(), Seed: rec.Seed()*100000 + 60000 + int64(len(out))})
+			e := spellHost(spell.next(entry{Kind: k}), hosts[(i+j)%len(hosts)])
+			out = append(out, &anyCase{Part: "reuse", Kind: k, Scheme: e.Scheme, Host: e.Host, M: m, Secure: (i+j)%2 == 1 && rec.Thorough(), Seed: rec.Seed()*100000 + 60000 + int64(len(out))})
 		}
 	}
 	if rec.Thorough() {
 		for _, k := range listKinds {
-			out = append(out, &anyCase{Part: "reuse", Kind: k, Scheme: spell.next(entry{Kind: k}).Scheme, M: 32, Secure: true, Seed: rec.Seed()*100000 + 60000 + int64(len(out))})
+			e := spellHost(spell.next(entry{Kind: k}), hosts[len(out)%len(hosts)])
+			out = append(out, &anyCase{Part: "reuse", Kind: k, Scheme: e.Scheme, Host: e.Host, M: 32, Secure: true, Seed: rec.Seed()*100000 + 60000 + int64(len(out))})
 		}
 	}
 	return out
@@ -1477,10 +1532,18 @@ func reuseCases(rec *vcommon.Rec) []*anyCase {
 func lossCases(rec *vcommon.Rec) (fast, slow []*anyCase) {
 	n := 0
 	spell := speller{}
+	lossHosts := append([]string{""}, hostSpellings()...)
+	hostTurn := map[string]int{}
 	mk := func(kind, how, when string, secure bool) *anyCase {
 		n++
-		// the spellings of the kind's scheme take turns
-		return &anyCase{Part: "loss", Kind: kind, Scheme: spell.next(entry{Kind: kind}).Scheme, How: how, When: when, Secure: secure, Seed: rec.Seed()*100000 + 70000 + int64(n)}
+		// the spellings of the kind's scheme and of the host take turns (stream carriers; the datagram carriers of the slow
+		// histories keep the default)
+		e := spell.next(entry{Kind: kind})
+		if kind == "tcp" || kind == "tcp+tls" || kind == "ws" {
+			e = spellHost(e, lossHosts[hostTurn[kind]%len(lossHosts)])
+			hostTurn[kind]++
+		}
+		return &anyCase{Part: "loss", Kind: kind, Scheme: e.Scheme, Host: e.Host, How: how, When: when, Secure: secure, Seed: rec.Seed()*100000 + 70000 + int64(n)}
 	}
 	secures := []bool{false}
 	if rec.Thorough() {
@@ -1557,6 +1620,12 @@ func TestVerifC16(t *testing.T) {
 	e2e.Quiet()
 	rec := vcommon.Open()
 	defer rec.Close()
+	if e2e.C16HasIPv6Loopback() {
+		rec.Seen("ipv6-loopback(::1)", "available: hosts are also written as [::1]")
+	} else {
+		rec.Seen("ipv6-loopback(::1)", "absent: the [::1] host spellings are skipped")
+		rec.Note("this machine has no ::1 loopback: upstream hosts are written as localhost / 127.0.0.1 only", nil)
+	}
 	if rec.Replay != nil {
 		var c anyCase
 		if err := json.Unmarshal(rec.Replay, &c); err != nil {
